@@ -774,6 +774,32 @@ func LifecycleChains(tmpl []Template, nBase int) []Plan {
 	return out
 }
 
+// StateShapeTemplates produce committed states of unusual shape (used where the state itself is the
+// subject: export / import, restart): an account that is a clawback vesting account AND a contract
+// (a grant to the address a deployment is about to create), and a DAO holder whose shares are in a
+// liquid denomination only.
+func StateShapeTemplates() []Template {
+	future := func(w *world.World) common.Address {
+		acc := w.App.AccountKeeper.GetAccount(w.Ctx(), w.Addrs[2])
+		return crypto.CreateAddress(common.BytesToAddress(w.Addrs[2]), acc.GetSequence())
+	}
+	vc := Template{Name: "vestingGrantThenDeployThere", Steps: []func(w *world.World, _ precomp.ABIs) []byte{
+		func(w *world.World, _ precomp.ABIs) []byte {
+			amt := coins(world.Denom, 100)
+			vest := sdkvesting.Periods{{Length: 30 * 86400, Amount: amt}, {Length: 30 * 86400, Amount: amt}, {Length: 30 * 86400, Amount: amt}, {Length: 30 * 86400, Amount: amt}}
+			return cosmosTx(w, 1, vtypes.NewMsgConvertIntoVestingAccount(w.Addrs[1], sdk.AccAddress(future(w).Bytes()), w.Header.Time.Add(-45*24*time.Hour), nil, vest, false, false, nil))
+		},
+		func(w *world.World, _ precomp.ABIs) []byte {
+			// constructor stores 7 in slot 0; the runtime returns slot 0
+			return ethTx(w, 2, nil, 0, common.FromHex("60076000556a60005460005260206000f3600052600b6015f3"), 300000, 0)
+		},
+	}}
+	lo := Template{Name: "daoFundLiquidOnly", Build: func(w *world.World, _ precomp.ABIs) [][]byte {
+		return [][]byte{cosmosTx(w, 2, ucdaotypes.NewMsgFund(coins("aLIQUID75", 5), w.Addrs[2]))}
+	}}
+	return []Template{vc, lo}
+}
+
 // AdversarialTemplates are histories aimed at the accounting invariants: pushing coins into the
 // module accounts whose balances the invariants pin (every way a user has of moving coins), and a
 // governance deposit in several denominations that gets burnt after a veto.
